@@ -60,7 +60,17 @@ Three == {
   [tag |-> <<"three", "right_where_left">>,
    q |-> Filter(Join("right", A, Bt, Eq(Col(1), Col(3)), 2, 2), OrE(IsNullE(Col(1)), Eq(Col(2), LitI(1))))] }
 
-Queries == Plain \cup Lateral \cup Sub \cup Three
+(* inequality joins whose right side is estimated small (an ungrouped aggregate, a VALUES list):
+   the optimizer swaps the sides, which must mirror the comparison operator *)
+MinB == [k |-> "agg", c |-> Bt, keys |-> <<>>, aggs |-> << [f |-> "min", x |-> Col(1), star |-> FALSE, dist |-> FALSE, filt |-> NoneE] >>,
+         gkind |-> "plain", sets |-> << <<>> >>, grouping |-> <<>>]
+Vals2 == [k |-> "values", rows |-> << <<V(1)>>, <<V(0)>> >>, cols |-> <<"i">>]
+Swap == { [tag |-> <<"swap", op \o "_agg">>, q |-> Join("inner", A, MinB, CmpE(op, Col(1), Col(3)), 2, 1)] : op \in {"lt", "ge"} }
+   \cup { [tag |-> <<"swap", op \o "_values">>, q |-> Join("inner", A, Vals2, CmpE(op, Col(2), Col(3)), 2, 1)] : op \in {"lt", "le", "gt"} }
+   \cup { [tag |-> <<"swap", "chain3">>,
+           q |-> Join("inner", Join("inner", A, Bt, CmpE("lt", Col(1), Col(3)), 2, 2), Scan("A"), CmpE("lt", Col(4), Col(5)), 4, 2)] }
+
+Queries == Plain \cup Lateral \cup Sub \cup Three \cup Swap
 
 VARIABLE c
 Init == IF What = "queries" THEN c \in Queries
